@@ -215,16 +215,17 @@ def invalidate_attrs(
     for invalidatee in invalidation_map.get(attr, set()) | invalidation_map.get(
         "*", set()
     ):
-        if invalidatee == attr:
+        if invalidatee == attr or invalidatee in _visited:
+            # (Never the attribute whose mutation started this, nor anything
+            # already found to hold no value.)
             continue
         try:
             delattr(obj, invalidatee)
         except AttributeError:
             # Nothing to reset here (e.g. an uncached or not yet evaluated
             # property), but dependants of `invalidatee` may still be stale.
-            if invalidatee not in _visited:
-                _visited.add(invalidatee)
-                invalidate_attrs(obj, invalidatee, invalidation_map, _visited)
+            _visited.add(invalidatee)
+            invalidate_attrs(obj, invalidatee, invalidation_map, _visited)
 
 
 def mutate_value(
